@@ -266,6 +266,11 @@ func (s *State) Eval(v ssa.Value) AVal {
 			}
 		case token.MUL:
 			cell := x.X
+			// an error sentinel of the module: a package variable assigned once, in the package initialiser, a
+			// freshly built error
+			if g, ok := cell.(*ssa.Global); ok && sentinelError(g) {
+				return AVal{K: ANonNil}
+			}
 			// the whole value of a struct local: what is known about its fields
 			if a, ok := cell.(*ssa.Alloc); ok {
 				if stt, ok := Deref(a.Type()).Underlying().(*types.Struct); ok {
@@ -1025,4 +1030,67 @@ func alwaysNewError(fn *ssa.Function, depth int) bool {
 		}
 	}
 	return true
+}
+
+var sentinelCache = map[*ssa.Global]bool{}
+var sentinelDone bool
+
+// sentinelError reports whether g is a package variable of the module that holds an error built by errors.New /
+// fmt.Errorf in the package initialiser and is assigned nowhere else.
+func sentinelError(g *ssa.Global) bool {
+	if CurrentProg == nil || g.Pkg == nil {
+		return false
+	}
+	if !sentinelDone {
+		sentinelDone = true
+		bad := map[*ssa.Global]bool{}
+		good := map[*ssa.Global]bool{}
+		visit := func(fn *ssa.Function, isInit bool) {
+			EachInstr(fn, func(in ssa.Instruction) {
+				st, ok := in.(*ssa.Store)
+				if !ok {
+					return
+				}
+				gg, ok := st.Addr.(*ssa.Global)
+				if !ok {
+					return
+				}
+				if !isInit {
+					bad[gg] = true
+					return
+				}
+				v := st.Val
+				if mi, ok := v.(*ssa.MakeInterface); ok {
+					v = mi.X
+				}
+				if call, ok := v.(*ssa.Call); ok {
+					switch ShortCallee(&call.Call) {
+					case "errors.New", "fmt.Errorf":
+						good[gg] = true
+						return
+					}
+				}
+				bad[gg] = true
+			})
+		}
+		for _, fn := range CurrentProg.Funcs {
+			visit(fn, false)
+		}
+		seen := map[*ssa.Package]bool{}
+		for _, fn := range CurrentProg.Funcs {
+			if fn.Pkg == nil || seen[fn.Pkg] {
+				continue
+			}
+			seen[fn.Pkg] = true
+			if init := fn.Pkg.Func("init"); init != nil {
+				visit(init, true)
+			}
+		}
+		for gg := range good {
+			if !bad[gg] {
+				sentinelCache[gg] = true
+			}
+		}
+	}
+	return sentinelCache[g]
 }
